@@ -208,3 +208,107 @@ Proof.
   destruct (gg_findc_good (S (length e)) e name id p []) as (ext & H1 & H2 & _).
   rewrite H1. apply H2. constructor.
 Qed.
+
+(* ---- the assignment-target lookup (refMember / fieldRef) ---- *)
+Section EmbR.
+  Variable rec : nat -> list nat -> lres * list nat * nat.
+  Fixpoint embr (fs : list field) (vis : list nat) : lres * list nat * nat :=
+    match fs with
+    | [] => (NotFound, vis, 0)
+    | f :: r =>
+      if f_emb f then
+        match f_ty f with
+        | FNamed t | FPtr t =>
+            let '(res, vis', n) := rec t vis in
+            match res with
+            | NotFound => let '(res2, v2, m) := embr r vis' in (res2, v2, n + m)
+            | _ => (res, vis', n)
+            end
+        | FBasic _ => embr r vis
+        end
+      else embr r vis
+    end.
+End EmbR.
+
+Fixpoint gg_refc (fuel : nat) (e : env) (name : N) (id : nat) (visited : list nat) : lres * list nat * nat :=
+  match fuel with
+  | 0 => (NotFound, visited, 1)
+  | S fuel' =>
+    let d := getd e id in
+    if negb (d_struct d) then (NotFound, visited, 1) else
+    match ref_find_field name 0 (d_fields d) with
+    | Some i => (Found true id i, visited, 1)
+    | None =>
+      if vmem id visited then (NotFound, visited, 1)
+      else let '(r, v, n) := embr (gg_refc fuel' e name) (d_fields d) (id :: visited) in (r, v, S n)
+    end
+  end.
+
+Lemma gg_refc_proj fuel : forall e name id vis,
+  proj (gg_refc fuel e name id vis) = gg_ref fuel e name id vis.
+Proof.
+  induction fuel as [|fuel IH]; intros e name id vis; cbn [gg_refc gg_ref]; [reflexivity|].
+  set (d := getd e id).
+  destruct (negb (d_struct d)); [reflexivity|].
+  destruct (ref_find_field name 0 (d_fields d)); [reflexivity|].
+  destruct (vmem id vis); [reflexivity|].
+  generalize (id :: vis) as v0. generalize (d_fields d) as fs.
+  induction fs as [|f fs IHf]; intros v0; [reflexivity|].
+  cbn [embr]. destruct (f_emb f); [|apply IHf].
+  destruct (f_ty f) as [k|t|t]; [apply IHf| |].
+  all: specialize (IH e name t v0); destruct (gg_refc fuel e name t v0) as [[r1 v1] n1];
+    unfold proj in IH; cbn [fst snd] in IH; rewrite <- IH;
+    destruct r1; try reflexivity;
+    specialize (IHf v1); destruct (embr (gg_refc fuel e name) fs v1) as [[r2 v2] n2];
+    unfold proj in *; cbn [fst snd] in *; exact IHf.
+Qed.
+
+Lemma embr_good e (rec : nat -> list nat -> lres * list nat * nat) :
+  (forall t v, good e v (rec t v) 1) ->
+  forall fs vis, good e vis (embr rec fs vis) (length fs).
+Proof.
+  intros Hrec. induction fs as [|f fs IHf]; intros vis; cbn [embr length].
+  - exists []. cbn. repeat split; auto; try lia; try (intros i []; fail).
+  - assert (Hskip : good e vis (embr rec fs vis) (S (length fs))).
+    { destruct (IHf vis) as (ext & H1 & H2 & H3 & H4). exists ext. repeat split; auto. lia. }
+    destruct (f_emb f); [|exact Hskip].
+    destruct (f_ty f) as [k|t|t]; [exact Hskip| |].
+    all: destruct (Hrec t vis) as (ext1 & H1 & H2 & H3 & H4);
+      destruct (rec t vis) as [[r1 v1] n1]; cbn [fst snd] in *; subst v1;
+      destruct r1; try (exists ext1; cbn [fst snd]; repeat split; auto; lia);
+      destruct (IHf (ext1 ++ vis)) as (ext2 & G1 & G2 & G3 & G4);
+      destruct (embr rec fs (ext1 ++ vis)) as [[r2 v2] n2]; cbn [fst snd] in *; subst v2;
+      exists (ext2 ++ ext1); rewrite <- app_assoc; repeat split; auto;
+      [ intros i Hi; apply in_app_or in Hi as [Hi|Hi]; auto
+      | cbn [snd]; rewrite sumf_app; lia ].
+Qed.
+
+Lemma gg_refc_good fuel : forall e name id vis, good e vis (gg_refc fuel e name id vis) 1.
+Proof.
+  induction fuel as [|fuel IH]; intros e name id vis; cbn [gg_refc]; [now apply good_nil|].
+  set (d := getd e id).
+  destruct (d_struct d) eqn:Es; cbn [negb]; [|now apply good_nil].
+  destruct (ref_find_field name 0 (d_fields d)); [now apply good_nil|].
+  destruct (vmem id vis) eqn:Ev; [now apply good_nil|].
+  destruct (embr_good e (gg_refc fuel e name) (IH e name) (d_fields d) (id :: vis))
+    as (ext & H1 & H2 & H3 & H4).
+  destruct (embr (gg_refc fuel e name) (d_fields d) (id :: vis)) as [[r v] n].
+  cbn [fst snd] in *. subst v.
+  exists (ext ++ [id]). rewrite <- app_assoc. cbn [app]. repeat split; auto.
+  - intros Hnd. apply H2. constructor; [now apply vmem_false_not_in|exact Hnd].
+  - intros i Hi. apply in_app_or in Hi as [Hi|[<-|[]]]; auto.
+  - rewrite sumf_app. cbn [snd]. assert (Hid : sumf e [id] = length (d_fields d)) by (unfold sumf, nf; cbn; fold d; lia). lia.
+Qed.
+
+Theorem member_ref_cost_linear e name id :
+  snd (gg_refc (S (length e)) e name id []) <= 1 + total_fields e /\
+  fst (fst (gg_refc (S (length e)) e name id [])) = gg_member_ref e name id.
+Proof.
+  split.
+  - destruct (gg_refc_good (S (length e)) e name id []) as (ext & H1 & H2 & H3 & H4).
+    rewrite app_nil_r in *. specialize (H2 (NoDup_nil _)).
+    eapply Nat.le_trans; [exact H4|]. apply Nat.add_le_mono_l.
+    unfold total_fields, sumf. apply sum_nodup_incl; [exact H2|].
+    intros i Hi. apply in_seq. split; [lia|]. cbn. now apply struct_in_range, H3.
+  - unfold gg_member_ref. rewrite <- gg_refc_proj. reflexivity.
+Qed.
